@@ -736,4 +736,85 @@ def aggDim (g : Agg) (dim : Nat) (e : Elem) : Option Py :=
     else if dim < e.depth then none else aggTerm g e
   | _ => none
 
+/-! ## Wave 3: re-shape histories on ONE model
+
+Elements are set up, used as operands, set up again with another shape and used again.  The set-up methods
+only ever ADD member keys (`ArrayedEquation.__setitem__` appends a key that is not there yet; nothing removes
+one) and set `arrayed` / `named_arrayed`; what an equation sees is `_elements.equations` of the element and of
+its rows AT THE TIME OF USE — nothing is remembered from earlier uses.  `Store` = the current description of
+every element; `use` = `expandE` / `aggTerm` of the current descriptions and leaves the store alone. -/
+
+/-- append the keys that are not present yet (by `str`), in order -/
+def addKeys (ks new : List Key) : List Key :=
+  new.foldl (fun acc k => if acc.any (fun x => Key.same k x) then acc else acc ++ [k]) ks
+
+/-- `setup_vector(n, …)` -/
+def Elem.setupVector (e : Elem) (n : Nat) : Elem := { e with keys := addKeys e.keys (rangeKeys n) }
+/-- `setup_matrix([m, n], …)`: rows `0..m-1` get the columns `0..n-1` (the harness only sends histories in which
+all rows keep the same columns — `matrix_size` refuses the others) -/
+def Elem.setupMatrix (e : Elem) (m n : Nat) : Elem :=
+  { e with keys := addKeys e.keys (rangeKeys m), inner := addKeys e.inner (rangeKeys n) }
+/-- `setup_named_vector({name: …})` -/
+def Elem.setupNamed (e : Elem) (names : List String) : Elem :=
+  { e with keys := addKeys e.keys (names.map Key.s), named := true }
+
+abbrev Store := List (String × Elem)
+
+def Store.get (st : Store) (nm : String) : Elem :=
+  match st.find? (fun p => p.1 == nm) with
+  | some p => p.2
+  | none => Elem.scalar nm
+
+def Store.set (st : Store) (nm : String) (e : Elem) : Store :=
+  (nm, e) :: st.filter (fun p => !(p.1 == nm))
+
+/-- operand tree over element NAMES, resolved against the store when used -/
+inductive RefEx
+  | num (neg : Bool) (lit : String)
+  | ref (nm : String)
+  | op (f : Form) (a b : RefEx)
+deriving Repr, Inhabited
+
+def RefEx.resolve (st : Store) : RefEx → Ex
+  | .num n l => .num n l
+  | .ref nm => .el (st.get nm)
+  | .op f a b => .op f (a.resolve st) (b.resolve st)
+
+inductive HOp
+  | setupVec (nm : String) (n : Nat)
+  | setupMat (nm : String) (m n : Nat)
+  | setupNamed (nm : String) (names : List String)
+  | use (x : RefEx)                     -- `R.equation = x` on a fresh converter R
+  | agg (g : Agg) (nm : String)         -- `R.equation = nm.arr_…()`
+deriving Repr, Inhabited
+
+inductive Reply
+  | res (r : Option Result)
+  | term (p : Option Py)
+deriving Repr, Inhabited
+
+def HOp.isSetup : HOp → Bool
+  | .use _ => false
+  | .agg _ _ => false
+  | _ => true
+
+def stepStore (st : Store) : HOp → Store
+  | .setupVec nm n => st.set nm ((st.get nm).setupVector n)
+  | .setupMat nm m n => st.set nm ((st.get nm).setupMatrix m n)
+  | .setupNamed nm names => st.set nm ((st.get nm).setupNamed names)
+  | .use _ => st
+  | .agg _ _ => st
+
+def stepReply (st : Store) : HOp → Option Reply
+  | .use x => some (.res (expandE tNow (x.resolve st)))
+  | .agg g nm => some (.term (aggTerm g (st.get nm)))
+  | _ => none
+
+/-- run a history: the final store and the replies of its uses, in order -/
+def runHist (st : Store) : List HOp → Store × List Reply
+  | [] => (st, [])
+  | o :: os =>
+    let r := runHist (stepStore st o) os
+    (r.1, match stepReply st o with | some x => x :: r.2 | none => r.2)
+
 end Bptk.C10
